@@ -470,6 +470,83 @@ func main() {
 			enc.Encode(ev)
 		}
 	}
+	// A write is on its way - it has passed every check and is about to propose - while the partition's raft group is
+	// unloaded (the dataset is deleted, or the replica moves away).  Either the unload waits for the write, or the
+	// write fails; the handler goroutine must not die (a panic there takes the server process down).
+	for round := 0; round < 3; round++ {
+		for _, kind := range []string{"insert", "remove", "update"} {
+			hid++
+			id := w.fresh(pLocal)
+			ev := event{Ev: "write", Hid: hid, Kind: kind, Path: "local-unload", Order: "caller-first", Id: idnum(id), Before: w.present(id)}
+			parked := make(chan struct{}, 1)
+			release := make(chan struct{})
+			storage.VerifGate = func(p string, i int) {
+				if p == "propose.before" {
+					select {
+					case parked <- struct{}{}:
+						<-release
+					default:
+					}
+				}
+			}
+			done := make(chan string, 1)
+			go func() {
+				defer func() {
+					if r := recover(); r != nil {
+						done <- "panic"
+						ev.Err = fmt.Sprint(r)
+					}
+				}()
+				done <- classify(w.call(kind, id, 3, 3*time.Second))
+			}()
+			gotThere := false
+			select {
+			case <-parked:
+				gotThere = true
+			case <-time.After(2 * time.Second):
+			}
+			unl := make(chan error, 1)
+			go func() { unl <- w.ds.VerifUnloadRaft(pLocal) }()
+			unloaded := false
+			select {
+			case <-unl:
+				unloaded = true
+				ev.Order = "unload-first"
+			case <-time.After(150 * time.Millisecond):
+			}
+			close(release)
+			ev.Ret = <-done
+			if !unloaded {
+				select {
+				case <-unl:
+				case <-time.After(8 * time.Second):
+					ev.Ret = "hang"
+				}
+			}
+			if !gotThere {
+				ev.Order = "not-parked"
+			}
+			ev.After = w.present(id)
+			g.install()
+			enc.Encode(ev)
+			// the replica comes back (a fresh group: unloading deletes its log)
+			if err := w.ds.VerifLoadRaft(pLocal, []uint64{1}); err != nil {
+				panic("reload failed: " + err.Error())
+			}
+			deadline := time.Now().Add(20 * time.Second)
+			for {
+				ctx, cancel := context.WithTimeout(context.Background(), 300*time.Millisecond)
+				err := w.ds.Insert(ctx, w.fresh(pLocal), vec(1), nil)
+				cancel()
+				if err == nil {
+					break
+				}
+				if time.Now().After(deadline) {
+					panic("local raft group did not come back after the unload: " + err.Error())
+				}
+			}
+		}
+	}
 	// The group loses its quorum (an unreachable voter is added): proposals are accepted by the leader but
 	// cannot be committed.  A write must then fail (the 5 s proposal time-out), never be acknowledged.
 	if g := w.ds.VerifRaft(pLocal); g != nil {
